@@ -407,8 +407,15 @@ def fix_unused_and_missing_imports(
         # block with the longest common prefix.  Tie-break by preferring later
         # blocks.
         added_imports = set()
+        # An import has to precede the earliest use of the name it binds.
+        first_use = {}
+        for lineno, ident in missing_imports:
+            name = ident.parts[0]
+            if name not in first_use or lineno < first_use[name]:
+                first_use[name] = lineno
         for lineno, ident in missing_imports:
             import_as = ident.parts[0]
+            lineno = first_use[import_as]
             try:
                 imports = known[import_as]
             except KeyError:
